@@ -85,6 +85,25 @@ theorem execStmt_rel (hR : RelOK R) (imp : ImpFn) (himp : ∀ d st n, R st (imp 
       · exact hR.store st _ var _
       · exact hR.refl st
     · exact hR.refl st
+  | addVia alias var k =>
+    simp only [execStmt]
+    split
+    · split
+      · split
+        · exact hR.store st _ var _
+        · exact hR.refl st
+      · exact hR.refl st
+    · exact hR.refl st
+  | newList var => simp only [execStmt]; exact hR.store st g var _
+  | pushVia alias var v =>
+    simp only [execStmt]
+    split
+    · split
+      · split
+        · exact hR.store st _ var _
+        · exact hR.refl st
+      · exact hR.refl st
+    · exact hR.refl st
   | tryImp name =>
     simp only [execStmt]
     split
@@ -110,34 +129,40 @@ theorem execStmts_rel (hR : RelOK R) (imp : ImpFn) (himp : ∀ d st n, R st (imp
     · exact hR.trans h (ih _ _)
     · exact h
 
-/-- what a stack-indexed relation must satisfy at the steps of `vm.importModule` -/
-structure ImpOK (R : List Path → St → St → Prop) : Prop where
+/-- what a stack-indexed relation must satisfy at the steps of `vm.importModule` (for the
+    importer configured in `env`) -/
+structure ImpOK (env : Env) (R : List Path → St → St → Prop) : Prop where
   rel : ∀ stack, RelOK (R stack)
   nofuel : ∀ stack (st : St) name, R stack st (({ st with nofuel := true } : St).fail name)
-  opens : ∀ stack (st : St) env name, R stack st (st.noteOpens env name)
-  compiled : ∀ stack (st : St) name, R stack st (st.noteCompiled name)
-  load : ∀ stack (st : St) name, R stack st (st.loadCode name)
+  opens : ∀ stack (st : St) name, R stack st (st.noteOpens env name)
+  compiled : ∀ stack (st : St) name, R stack st (st.noteCompiled env name)
+  load : ∀ stack (st : St) c, R stack st (st.loadCode c)
   overflow : ∀ stack (st : St) name, R stack st (st.fail name)
-  /-- the body: entered from `st3` (where `name` is not cached and its code is loaded as `gid`),
-      evaluated under the relation of the extended stack, then cached -/
+  /-- the body: entered from `st3` (where `name` is not cached, the importer returned the code
+      object `c` for it and that code is loaded with the globals array `gid`), evaluated under
+      the relation of the extended stack, then cached -/
   bodyOk : ∀ stack (st3 st5 : St) name gid, st3.cache.lookup name = none →
-    (name, gid) ∈ st3.loaded →
+    (∃ c, (name, c) ∈ st3.compiled ∧ (c, gid) ∈ st3.loaded) →
     R (name :: stack) (st3.enter name gid stack) st5 →
     R stack st3 (st5.cacheAdd name st3.objs.length)
   bodyFail : ∀ stack (st3 st5 : St) name gid, st3.cache.lookup name = none →
-    (name, gid) ∈ st3.loaded →
+    (∃ c, (name, c) ∈ st3.compiled ∧ (c, gid) ∈ st3.loaded) →
     R (name :: stack) (st3.enter name gid stack) st5 →
     R stack st3 (st5.fail name)
 
 theorem noteOpens_cache (st : St) (env : Env) (n : Path) : (st.noteOpens env n).cache = st.cache := by
   unfold St.noteOpens; split <;> rfl
-theorem noteCompiled_cache (st : St) (n : Path) : (st.noteCompiled n).cache = st.cache := by
-  unfold St.noteCompiled; split <;> rfl
-theorem loadCode_cache (st : St) (n : Path) : (st.loadCode n).cache = st.cache := by
+theorem noteCompiled_cache (st : St) (env : Env) (n : Path) : (st.noteCompiled env n).cache = st.cache := by
+  unfold St.noteCompiled; split
+  · rfl
+  · split <;> rfl
+theorem loadCode_cache (st : St) (c : Nat) : (st.loadCode c).cache = st.cache := by
+  unfold St.loadCode; split <;> rfl
+theorem loadCode_compiled (st : St) (c : Nat) : (st.loadCode c).compiled = st.compiled := by
   unfold St.loadCode; split <;> rfl
 
-theorem lookup_mem {α : Type} (l : List (Path × α)) (k : Path) (v : α) (h : l.lookup k = some v) :
-    (k, v) ∈ l := by
+theorem lookup_mem {κ α : Type} [BEq κ] [LawfulBEq κ] (l : List (κ × α)) (k : κ) (v : α)
+    (h : l.lookup k = some v) : (k, v) ∈ l := by
   induction l with
   | nil => simp [List.lookup] at h
   | cons p t ih =>
@@ -150,7 +175,7 @@ theorem lookup_mem {α : Type} (l : List (Path × α)) (k : Path) (v : α) (h : 
       subst this; subst h; simp
     · exact List.mem_cons_of_mem _ (ih h)
 
-theorem loadCode_mem (st : St) (n : Path) : (n, st.gidOf n) ∈ (st.loadCode n).loaded := by
+theorem loadCode_mem (st : St) (c : Nat) : (c, st.gidOf c) ∈ (st.loadCode c).loaded := by
   unfold St.loadCode St.gidOf
   split
   · rename_i g hg
@@ -159,7 +184,18 @@ theorem loadCode_mem (st : St) (n : Path) : (n, st.gidOf n) ∈ (st.loadCode n).
   · rename_i hg
     simp [hg]
 
-theorem importModule_rel {R : List Path → St → St → Prop} (hR : ImpOK R) (env : Env) :
+/-- after `importer.Import(name)` compiled (or found) the module, the code object it returns
+    is the one its by-name cache holds -/
+theorem noteCompiled_mem (st : St) (env : Env) (n : Path) :
+    (n, (st.noteCompiled env n).codeOf n) ∈ (st.noteCompiled env n).compiled := by
+  unfold St.noteCompiled
+  split
+  · rename_i c hc
+    simp only [St.codeOf, hc, Option.getD_some]
+    exact lookup_mem _ _ _ hc
+  · split <;> simp [St.codeOf, List.lookup]
+
+theorem importModule_rel {R : List Path → St → St → Prop} (env : Env) (hR : ImpOK env R) :
     ∀ (fuel : Nat) (stack : List Path) (depth : Nat) (st : St) (name : Path),
       R stack st (importModule env fuel stack depth st name).2 := by
   intro fuel
@@ -172,32 +208,43 @@ theorem importModule_rel {R : List Path → St → St → Prop} (hR : ImpOK R) (
     split
     · exact hrel.refl st
     · rename_i hmiss
-      have h1 := hR.opens stack st env name
+      have h1 := hR.opens stack st name
       split
       · exact h1
       · rename_i body hbody
         have h2 := hR.compiled stack (st.noteOpens env name) name
-        have h3 := hR.load stack ((st.noteOpens env name).noteCompiled name) name
+        have h3 := hR.load stack ((st.noteOpens env name).noteCompiled env name)
+          (((st.noteOpens env name).noteCompiled env name).codeOf name)
         have h13 := hrel.trans h1 (hrel.trans h2 h3)
         split
         · exact hrel.trans h13 (hR.overflow stack _ name)
-        · have hc : (((st.noteOpens env name).noteCompiled name).loadCode name).cache.lookup name = none := by
+        · have hc : (((st.noteOpens env name).noteCompiled env name).loadCode
+              (((st.noteOpens env name).noteCompiled env name).codeOf name)).cache.lookup name = none := by
             rw [loadCode_cache, noteCompiled_cache, noteOpens_cache]; exact hmiss
-          have hm := loadCode_mem ((st.noteOpens env name).noteCompiled name) name
+          have hm : ∃ c, (name, c) ∈ (((st.noteOpens env name).noteCompiled env name).loadCode
+                (((st.noteOpens env name).noteCompiled env name).codeOf name)).compiled ∧
+              (c, ((st.noteOpens env name).noteCompiled env name).gidOf
+                (((st.noteOpens env name).noteCompiled env name).codeOf name)) ∈
+              (((st.noteOpens env name).noteCompiled env name).loadCode
+                (((st.noteOpens env name).noteCompiled env name).codeOf name)).loaded :=
+            ⟨_, by rw [loadCode_compiled]; exact noteCompiled_mem _ env name, loadCode_mem _ _⟩
           have hb := execStmts_rel (hR.rel (name :: stack)) (importModule env fuel (name :: stack))
             (fun d s n => ih (name :: stack) d s n) env
-            (((st.noteOpens env name).noteCompiled name).gidOf name) (depth + 1) body
-            ((((st.noteOpens env name).noteCompiled name).loadCode name).enter name
-              (((st.noteOpens env name).noteCompiled name).gidOf name) stack) []
+            (((st.noteOpens env name).noteCompiled env name).gidOf
+              (((st.noteOpens env name).noteCompiled env name).codeOf name)) (depth + 1) body
+            ((((st.noteOpens env name).noteCompiled env name).loadCode
+              (((st.noteOpens env name).noteCompiled env name).codeOf name)).enter name
+              (((st.noteOpens env name).noteCompiled env name).gidOf
+                (((st.noteOpens env name).noteCompiled env name).codeOf name)) stack) []
           split
           · exact hrel.trans h13 (hR.bodyOk stack _ _ name _ hc hm hb)
           · exact hrel.trans h13 (hR.bodyFail stack _ _ name _ hc hm hb)
 
 /-- a whole evaluation: the script's statements with the real import function -/
-theorem run_rel {R : List Path → St → St → Prop} (hR : ImpOK R) (env : Env) (fuel : Nat)
+theorem run_rel {R : List Path → St → St → Prop} (env : Env) (hR : ImpOK env R) (fuel : Nat)
     (main : List Stmt) : R [] St.init (run env fuel main).2 := by
   unfold run
-  exact execStmts_rel (hR.rel []) _ (fun d s n => importModule_rel hR env fuel [] d s n) env 0 0 main St.init []
+  exact execStmts_rel (hR.rel []) _ (fun d s n => importModule_rel env hR fuel [] d s n) env 0 0 main St.init []
 
 end Risor.C14
 
@@ -244,11 +291,11 @@ theorem R2_relOK (stack : List Path) : RelOK (R2 stack) where
       simp at this
     exact ⟨fun hc => (hfalse hc).elim, fun hc => (hfalse hc).elim⟩
 
-theorem R2_impOK : ImpOK R2 where
+theorem R2_impOK (env : Env) : ImpOK env R2 where
   rel := R2_relOK
   nofuel := fun _ st n => ⟨fun h => (not_clean_fail _ n h).elim, fun h => (not_clean_fail _ n h).elim⟩
   opens := by
-    intro stack st env n
+    intro stack st n
     unfold St.noteOpens
     split
     · exact ⟨fun h => h, fun _ h => h⟩
@@ -258,7 +305,9 @@ theorem R2_impOK : ImpOK R2 where
     unfold St.noteCompiled
     split
     · exact ⟨fun h => h, fun _ h => h⟩
-    · exact ⟨fun h => h, fun _ h => h⟩
+    · split
+      · exact ⟨fun h => h, fun _ h => h⟩
+      · exact ⟨fun h => h, fun _ h => h⟩
   load := by
     intro stack st n
     unfold St.loadCode
@@ -317,20 +366,24 @@ theorem R2_impOK : ImpOK R2 where
       · left; simp [St.cacheAdd]
       · exact Or.inr h
 
-/-! ### Instance 2: every globals array belongs to one module name; objects = body runs. -/
+/-! ### Instance 2: every globals array belongs to one code object; objects = body runs. -/
 
-/-- globals-array ownership: arrays of loaded codes and of module objects are never the
-    script's (index 0), exist, and no array serves two module names -/
+/-- globals-array ownership (the VM's side, whatever the importer does): arrays created by
+    `loadCode` are never the script's (index 0) and exist, no array serves two code objects,
+    every loaded code is recorded, and the array of every module object is the array of the
+    code object the importer returned for the module's name -/
 def K (st : St) : Prop :=
-  (∀ p ∈ st.loaded ++ st.objs, 0 < p.2 ∧ p.2 < st.heap.length) ∧
-  (∀ p ∈ st.loaded ++ st.objs, ∀ q ∈ st.loaded ++ st.objs, p.2 = q.2 → p.1 = q.1) ∧
+  (∀ p ∈ st.owner, 0 < p.2 ∧ p.2 < st.heap.length) ∧
+  (∀ p ∈ st.owner, ∀ q ∈ st.owner, p.2 = q.2 → p.1 = q.1) ∧
+  (∀ p ∈ st.loaded, p ∈ st.owner) ∧
+  (∀ o ∈ st.objs, ∃ c, (o.1, c) ∈ st.compiled ∧ (c, o.2) ∈ st.owner) ∧
   0 < st.heap.length
 
 /-- one module object per body execution, in the same order -/
 def OT (st : St) : Prop := st.objs.map (·.1) = st.ticks
 
 def R3 (_ : List Path) (st st' : St) : Prop :=
-  (∀ p ∈ st.loaded, p ∈ st'.loaded) ∧ (K st → K st') ∧ (OT st → OT st')
+  (∀ p ∈ st.owner, p ∈ st'.owner) ∧ (K st → K st') ∧ (OT st → OT st')
 
 theorem length_modifyAt {α : Type} (f : α → α) (n : Nat) (l : List α) :
     (modifyAt f n l).length = l.length := by
@@ -339,44 +392,67 @@ theorem length_modifyAt {α : Type} (f : α → α) (n : Nat) (l : List α) :
   | cons x xs ih => cases n <;> simp [modifyAt, ih]
 
 theorem K_store (st : St) (g : Nat) (k : Path) (v : Val) (h : K st) : K (st.store g k v) := by
-  obtain ⟨h1, h2, h3⟩ := h
-  refine ⟨?_, h2, ?_⟩
+  obtain ⟨h1, h2, h3, h4, h5⟩ := h
+  refine ⟨?_, h2, h3, h4, ?_⟩
   · intro p hp
     have := h1 p hp
     simpa [St.store, length_modifyAt] using this
-  · simpa [St.store, length_modifyAt] using h3
+  · simpa [St.store, length_modifyAt] using h5
 
-theorem K_loadCode (st : St) (n : Path) (h : K st) : K (st.loadCode n) := by
+theorem K_noteCompiled (st : St) (env : Env) (n : Path) (h : K st) : K (st.noteCompiled env n) := by
+  obtain ⟨h1, h2, h3, h4, h5⟩ := h
+  unfold St.noteCompiled
+  split
+  · exact ⟨h1, h2, h3, h4, h5⟩
+  · split
+    · refine ⟨h1, h2, h3, ?_, h5⟩
+      intro o ho
+      obtain ⟨c, hc1, hc2⟩ := h4 o ho
+      exact ⟨c, List.mem_cons_of_mem _ hc1, hc2⟩
+    · refine ⟨h1, h2, h3, ?_, h5⟩
+      intro o ho
+      obtain ⟨c, hc1, hc2⟩ := h4 o ho
+      exact ⟨c, List.mem_cons_of_mem _ hc1, hc2⟩
+
+theorem K_loadCode (st : St) (c : Nat) (h : K st) : K (st.loadCode c) := by
   unfold St.loadCode
   split
   · exact h
-  · obtain ⟨h1, h2, h3⟩ := h
-    refine ⟨?_, ?_, ?_⟩
+  · obtain ⟨h1, h2, h3, h4, h5⟩ := h
+    refine ⟨?_, ?_, ?_, ?_, ?_⟩
     · intro p hp
-      simp only [List.cons_append, List.mem_cons, List.length_append, List.length_cons, List.length_nil] at hp ⊢
+      simp only [List.mem_cons, List.length_append, List.length_cons, List.length_nil] at hp ⊢
       rcases hp with rfl | hp
       · simp only; omega
       · have := h1 p hp; omega
     · intro p hp q hq hpq
-      simp only [List.cons_append, List.mem_cons] at hp hq
+      simp only [List.mem_cons] at hp hq
       rcases hp with rfl | hp <;> rcases hq with rfl | hq
       · rfl
       · have := (h1 q hq).2; simp only at hpq; omega
       · have := (h1 p hp).2; simp only at hpq; omega
       · exact h2 p hp q hq hpq
+    · intro p hp
+      simp only [List.mem_cons] at hp ⊢
+      rcases hp with rfl | hp
+      · exact Or.inl rfl
+      · exact Or.inr (h3 p hp)
+    · intro o ho
+      obtain ⟨c', hc1, hc2⟩ := h4 o ho
+      exact ⟨c', hc1, List.mem_cons_of_mem _ hc2⟩
     · simp only [List.length_append]; omega
 
-theorem K_enter (st : St) (n : Path) (g : Nat) (stack : List Path) (hm : (n, g) ∈ st.loaded) (h : K st) :
+theorem K_enter (st : St) (n : Path) (g : Nat) (stack : List Path)
+    (hm : ∃ c, (n, c) ∈ st.compiled ∧ (c, g) ∈ st.loaded) (h : K st) :
     K (st.enter n g stack) := by
-  obtain ⟨h1, h2, h3⟩ := h
-  have hsub : ∀ p ∈ (st.enter n g stack).loaded ++ (st.enter n g stack).objs, p ∈ st.loaded ++ st.objs := by
-    intro p hp
-    simp only [St.enter, List.mem_append, List.mem_singleton] at hp ⊢
-    rcases hp with hp | hp | rfl
-    · exact Or.inl hp
-    · exact Or.inr hp
-    · exact Or.inl hm
-  exact ⟨fun p hp => h1 p (hsub p hp), fun p hp q hq => h2 p (hsub p hp) q (hsub q hq), h3⟩
+  obtain ⟨h1, h2, h3, h4, h5⟩ := h
+  refine ⟨h1, h2, h3, ?_, h5⟩
+  intro o ho
+  simp only [St.enter, List.mem_append, List.mem_singleton] at ho
+  rcases ho with ho | rfl
+  · exact h4 o ho
+  · obtain ⟨c, hc1, hc2⟩ := hm
+    exact ⟨c, hc1, h3 _ hc2⟩
 
 theorem R3_relOK (stack : List Path) : RelOK (R3 stack) where
   refl := fun _ => ⟨fun _ h => h, fun h => h, fun h => h⟩
@@ -385,31 +461,32 @@ theorem R3_relOK (stack : List Path) : RelOK (R3 stack) where
   misb := fun _ => ⟨fun _ h => h, fun h => h, fun h => h⟩
   spawn := by
     intro st st1 h
-    refine ⟨fun _ hp => hp, ?_, fun ho => h.2.2 ho⟩
+    refine ⟨fun p hp => h.1 p hp, ?_, fun ho => h.2.2 ho⟩
     intro hk
-    obtain ⟨k1, k2, k3⟩ := h.2.1 hk
-    have hsub : ∀ p ∈ st.loaded ++ st1.objs, p ∈ st1.loaded ++ st1.objs := by
-      intro p hp
-      simp only [List.mem_append] at hp ⊢
-      rcases hp with hp | hp
-      · exact Or.inl (h.1 p hp)
-      · exact Or.inr hp
-    exact ⟨fun p hp => k1 p (hsub p hp), fun p hp q hq => k2 p (hsub p hp) q (hsub q hq), k3⟩
+    obtain ⟨k1, k2, k3, k4, k5⟩ := h.2.1 hk
+    exact ⟨k1, k2, fun p hp => h.1 p (hk.2.2.1 p hp), k4, k5⟩
 
-theorem R3_impOK : ImpOK R3 where
+theorem R3_impOK (env : Env) : ImpOK env R3 where
   rel := R3_relOK
   nofuel := fun _ _ _ => ⟨fun _ h => h, fun h => h, fun h => h⟩
   opens := by
-    intro stack st env n
+    intro stack st n
     unfold St.noteOpens
     split <;> exact ⟨fun _ h => h, fun h => h, fun h => h⟩
   compiled := by
     intro stack st n
-    unfold St.noteCompiled
-    split <;> exact ⟨fun _ h => h, fun h => h, fun h => h⟩
+    refine ⟨?_, K_noteCompiled st env n, ?_⟩
+    · unfold St.noteCompiled
+      split
+      · exact fun _ h => h
+      · split <;> exact fun _ h => h
+    · unfold St.noteCompiled
+      split
+      · exact fun h => h
+      · split <;> exact fun h => h
   load := by
-    intro stack st n
-    refine ⟨?_, K_loadCode st n, ?_⟩
+    intro stack st c
+    refine ⟨?_, K_loadCode st c, ?_⟩
     · intro p hp
       unfold St.loadCode
       split
@@ -434,6 +511,80 @@ theorem R3_impOK : ImpOK R3 where
       simp only [OT, St.enter, List.map_append, List.map_cons, List.map_nil]
       rw [ho]
     exact hb.2.2 this
+
+/-! ### Instance 3: the importer.  With separate compilation of every module path
+    (`LocalImporter`), distinct paths never get the same code object. -/
+
+/-- the importer's invariant: the by-name cache is injective on code identities and every
+    identity in it was handed out by `parseAndCompile` (is below the allocation counter) -/
+def ImporterInv (st : St) : Prop :=
+  CodeInj st ∧ ∀ p ∈ st.compiled, p.2 < st.ncode
+
+theorem lookup_none_not_mem' {α : Type} (l : List (Path × α)) (k : Path) (h : l.lookup k = none) :
+    ∀ v, (k, v) ∉ l := by
+  induction l with
+  | nil => simp
+  | cons p t ih =>
+    obtain ⟨k', v'⟩ := p
+    simp only [List.lookup] at h
+    split at h
+    · cases h
+    · rename_i hne
+      have hk : k ≠ k' := by simpa using hne
+      intro v hv
+      simp only [List.mem_cons, Prod.mk.injEq] at hv
+      rcases hv with ⟨e, _⟩ | hv
+      · exact hk e
+      · exact ih h v hv
+
+/-- one `Import` call of an importer that compiles every path separately keeps the invariant -/
+theorem ImporterInv_noteCompiled (st : St) (env : Env) (hl : LocalImporter env) (n : Path)
+    (h : ImporterInv st) : ImporterInv (st.noteCompiled env n) := by
+  unfold St.noteCompiled
+  split
+  · exact h
+  · rename_i hmiss
+    rw [hl st.compiled n]
+    obtain ⟨hi, hb⟩ := h
+    refine ⟨?_, ?_⟩
+    · intro p hp q hq hpq
+      simp only [List.mem_cons] at hp hq
+      rcases hp with rfl | hp <;> rcases hq with rfl | hq
+      · rfl
+      · have := hb q hq; simp only at hpq; omega
+      · have := hb p hp; simp only at hpq; omega
+      · exact hi p hp q hq hpq
+    · intro p hp
+      simp only [List.mem_cons] at hp
+      rcases hp with rfl | hp
+      · simp
+      · have := hb p hp; simp only; omega
+
+theorem ImporterInv_noteOpens (st : St) (env : Env) (n : Path) (h : ImporterInv st) :
+    ImporterInv (st.noteOpens env n) := by
+  unfold St.noteOpens; split <;> exact h
+
+def R4 (_ : List Path) (st st' : St) : Prop := ImporterInv st → ImporterInv st'
+
+theorem R4_relOK (stack : List Path) : RelOK (R4 stack) where
+  refl := fun _ h => h
+  trans := fun h1 h2 h => h2 (h1 h)
+  store := fun _ _ _ _ h => h
+  misb := fun _ h => h
+  spawn := fun _ _ h hi => h hi
+
+theorem R4_impOK (env : Env) (hl : LocalImporter env) : ImpOK env R4 where
+  rel := R4_relOK
+  nofuel := fun _ _ _ h => h
+  opens := fun _ st n h => ImporterInv_noteOpens st env n h
+  compiled := fun _ st n h => ImporterInv_noteCompiled st env hl n h
+  load := by
+    intro stack st c h
+    unfold St.loadCode
+    split <;> exact h
+  overflow := fun _ _ _ h => h
+  bodyOk := fun _ _ _ _ _ _ _ hb h => hb h
+  bodyFail := fun _ _ _ _ _ _ _ hb h => hb h
 
 end Risor.C14
 
